@@ -415,8 +415,8 @@ func runVS(t *testing.T, s vsSc) (res verifsim.Result) {
 	return
 }
 
-func TestVerif_C05_History(t *testing.T) {
-	verifsim.RunCheck(t, verifsim.Check[vsSc]{
+func c05HistoryCheck() verifsim.Check[vsSc] {
+	return verifsim.Check[vsSc]{
 		Property: "C05", Part: "history",
 		Rule: "rapid state machine under synctest virtual time: 1-25 operations on 6 keys (shared lock stripes, two namespaces, the reserved providers namespace): put of valid/" +
 			"mis-tagged/malformed values with ranks 0-4 whose record carries no / the current / a past / a future / a garbage receive time, get, clock advance of fractions/multiples of the max record age (age disabled, 60 s, 3600 s), GC ticks, planted corrupt/" +
@@ -456,7 +456,14 @@ func TestVerif_C05_History(t *testing.T) {
 			return s
 		},
 		Run: func(t *testing.T, s vsSc) verifsim.Result { return runVS(t, s) },
-	})
+	}
+}
+
+func TestVerif_C05_History(t *testing.T) { verifsim.RunCheck(t, c05HistoryCheck()) }
+
+// the same generator and oracle driven by Go's coverage-guided fuzzer (thorough tier)
+func FuzzVerif_C05_History(f *testing.F) {
+	verifsim.RunFuzz(f, c05HistoryCheck(), "TestVerif_C05_History")
 }
 
 // ---------- part: interleavings ----------
